@@ -445,6 +445,16 @@ pub fn family(name: &str, thorough: bool, seed: usize) -> Family {
             }
             Family { name: name.into(), lists, hays: gen::strings(b"abc", 0, if thorough { 5 } else { 4 }) }
         }
+        // byte-value boundaries: 0x00, 0x7F/0x80, 0xFE/0xFF (byte classes, last class, non-ASCII)
+        "bytes" => {
+            let alpha: &[u8] = &[0x00, b'a', 0x7F, 0x80, 0xFE, 0xFF];
+            let pool = gen::strings(alpha, 1, 2);
+            let mut lists = gen::lists(&pool, 1, 1, 0);
+            let two = gen::lists(&pool, 2, 1, 0);
+            let stride = if thorough { 1 } else { 4 };
+            lists.extend(two.into_iter().skip(pool.len() + seed % stride).step_by(stride));
+            Family { name: name.into(), lists, hays: gen::strings(alpha, 0, 3) }
+        }
         // shape-directed lists (states with many transitions, sparse-chunk boundaries of the
         // contiguous NFA, a^k b, nested suffixes, > 100 patterns); haystacks derived per list
         "wide" => {
@@ -559,7 +569,7 @@ pub fn run(args: &Args) -> Report {
                             }
                         }
                     }
-                    let derived = if fname == "deep" || fname == "wide" { derived_hays(pats) } else { vec![] };
+                    let derived = if fname == "deep" || fname == "wide" || fname == "bytes" { derived_hays(pats) } else { vec![] };
                     for hay in fam.hays.iter().chain(derived.iter()) {
                         if rel != "def" {
                             check_hay_rel(&ctx, &built, hay, aspects, &rel);
